@@ -202,7 +202,7 @@ theorem addCore_norm_ne_zero (hs : SqrtLaw α) (fuel : ℕ) (s : LMQR α) (h : R
   apply Finset.sum_congr rfl
   intro i hi
   rw [Finset.mem_range] at hi
-  rw [(hbs i hi).2 (not_lt.mpr (abs_nonneg _)) (hP i hi), hqtv i hi]
+  rw [(hbs i hi).2 (not_le.mpr (abs_pos.mpr (hP i hi))) (hP i hi), hqtv i hi]
 
 end
 end Alpaqa.C10
